@@ -209,3 +209,82 @@ def call(interp, node, args):
     if r is None:
         return None
     return r[1]
+
+
+# ------------------------------------------------------------------------------------------------
+# the round-trip query, built per (N, picks) and decided per goal in worker processes
+# ------------------------------------------------------------------------------------------------
+class Problem:
+    """N region names r0..r(N-1); idx_j = ZeroExt(58, 6-bit symbolic) != 0, pairwise distinct (every injective map into
+    1..63).  picks is None: the selected list is the sub-list of the names chosen by N symbolic bits (mapping order);
+    picks = k: the selected list is an arbitrary sequence of k symbolic positions (duplicates, any order)."""
+
+    def __init__(self, n, picks=None):
+        self.n = n
+        self.picks = picks
+        self.names = [f'r{j}' for j in range(n)]
+        self.small = [z3.BitVec(f'idx{j}', 6) for j in range(n)]
+        self.idxs = [z3.ZeroExt(W - 6, s) for s in self.small]
+        self.pre = [s != 0 for s in self.small] + [z3.Distinct(*self.small)]
+        mapping = SymMapping(self.names, self.idxs)
+        if picks is None:
+            self.sel = [z3.Bool(f'sel{j}') for j in range(n)]
+            selected = SymList([(self.sel[j], self.names[j]) for j in range(n)])
+            self.want = self.sel
+        else:
+            self.pk = [z3.BitVec(f'pick{i}', W) for i in range(picks)]
+            self.pre += [z3.And(p >= 0, p < n) for p in self.pk]
+            selected = SymList([(z3.BoolVal(True), p) for p in self.pk])
+            self.want = [z3.Or(*[p == j for p in self.pk]) for j in range(n)]
+        enc_node, _ = load('regions_to_bits_rep')
+        dec_node, _ = load('regions_bits_rep_to_regions')
+        it = Interp()
+        self.bits = call(it, enc_node, [selected, mapping])
+        if not z3.is_bv(self.bits):
+            raise HarnessError('regions_to_bits_rep did not translate to a bit-vector')
+        back = call(it, dec_node, [self.bits, mapping])
+        if not isinstance(back, SymList):
+            raise HarnessError('regions_bits_rep_to_regions did not translate to a list')
+        self.got = {nm: z3.BoolVal(False) for nm in self.names}
+        count = {nm: 0 for nm in self.names}
+        for g, el in back.items:
+            if not isinstance(el, str):
+                raise HarnessError('decoder appends something that is not a region name')
+            self.got[el] = z3.Or(self.got[el], g)
+            count[el] += 1
+        if any(c > 1 for c in count.values()):
+            raise HarnessError('decoder may append a region twice')
+        true = z3.BoolVal(True)
+        self.goals = {f'region r{j} decoded iff selected': self.got[nm] == self.want[j] for j, nm in enumerate(self.names)}
+        self.goals.update({
+            'asserts of the code hold': z3.And(true, *[z3.Implies(g, c) for g, c, _ in it.asserts]),
+            'no negative shift count (Python would raise)': z3.And(true, *[z3.Implies(g, z3.Not(c)) for g, c, _ in it.raises]),
+            'BitVec-64 model is exact (shifts stay in range)': z3.And(true, *[z3.Implies(g, c) for g, c, _ in it.no_wrap]),
+            'stored value fits signed BIGINT': self.bits >= 0,
+        })
+        self.n_asserts = len(it.asserts)
+
+    def concretise(self, m):
+        ci = [m.eval(i, model_completion=True).as_long() for i in self.idxs]
+        if self.picks is None:
+            sel = [self.names[j] for j in range(self.n) if z3.is_true(m.eval(self.sel[j], model_completion=True))]
+        else:
+            sel = [self.names[m.eval(p, model_completion=True).as_signed_long()] for p in self.pk]
+        return ci, sel
+
+
+def solve_goals(args):
+    """Worker: (n, picks, [goal names], timeout_ms) -> [(goal, result, secs, (idxs, selected) | None)]."""
+    import time
+    n, picks, keys, timeout_ms = args
+    p = Problem(n, picks)
+    out = []
+    for k in keys:
+        s = z3.Solver()
+        s.set('timeout', timeout_ms)
+        s.add(*p.pre)
+        s.add(z3.Not(p.goals[k]))
+        t = time.time()
+        r = str(s.check())
+        out.append((k, r, time.time() - t, p.concretise(s.model()) if r == 'sat' else None))
+    return out
